@@ -1,6 +1,11 @@
 import DV
 import DVP.Lemmas.Split
 import DVP.Lemmas.Symplectic
+import DVP.Lemmas.QuadInv
+import Mathlib.Tactic.NormNum
+import Mathlib.Algebra.Module.Prod
+import Mathlib.Algebra.Algebra.Bilinear
+import Mathlib.LinearAlgebra.Prod
 /-!
 # C10 — symplectic methods produce symplectic, time-reversible maps
 
@@ -18,9 +23,14 @@ regenerated from `/repo`):
   states — is the modelling step; it is not formalised.)
 
 Implicit methods flagged symplectic: the condition `b_i a_ij + b_j a_ji − b_i b_j = 0` and the
-symmetry of the table hold for the generated coefficients to `1e-14` (verified computation).  Cited,
-not formalised: that this condition implies symplecticity of the nonlinear map (Lasagni, Sanz-Serna,
-Suris) and that symplectic integrators have no secular energy drift (backward error analysis).  The
+symmetry of the table hold for the generated coefficients to `1e-14` (verified computation).  Proved
+from it (`quadratic_invariant_defect`, `symplectic_rk_quadratic_invariants`): for ANY table and ANY
+stage values the change of a quadratic invariant over one step is exactly
+`−h² Σ_ij (b_i a_ij + b_j a_ji − b_i b_j) B(k_i,k_j)`, hence at most `1e-14 h² Σ|B(k_i,k_j)|` per step
+for the three shipped tables — whatever the (nonlinear) right-hand side, the state, the step of either
+sign and the stage solution.  Cited, not formalised: that the symplectic two-form of the flow map is
+such a quadratic invariant of the variational system (Bochev–Scovel; Lasagni, Sanz-Serna, Suris) and
+that symplectic integrators have no secular energy drift (backward error analysis).  The
 implementation is measured (`harness/p_c10.py`): `MᵀJM = J` by finite differences, `h` then `−h`,
 energy over long runs.
 -/
@@ -59,6 +69,47 @@ theorem composition_of_shears_symplectic {l : Type} [DecidableEq l] [Fintype l] 
     (h : ∀ s ∈ stages, s.symm) :
     (stages.map Stage.jac).prod * Matrix.J l ℚ * ((stages.map Stage.jac).prod)ᵀ = Matrix.J l ℚ :=
   SymplecticGroup.mem_iff.mp (composition_symplectic stages h)
+
+/-- **The defect of a quadratic invariant over one Runge–Kutta step**, for every table `(a, b)` with
+`s` stages, every symmetric bilinear form `B`, step `h` of either sign, state `y₀` and stage slopes
+`k_i` tangent to the invariant at the stage states: `B(y₁,y₁) − B(y₀,y₀) = −h² Σ_ij m_ij B(k_i,k_j)` -/
+theorem quadratic_invariant_defect {V : Type} [AddCommGroup V] [Module ℚ V]
+    (B : V →ₗ[ℚ] V →ₗ[ℚ] ℚ) (hsymm : ∀ x y, B x y = B y x) (s : ℕ) (a : ℕ → ℕ → ℚ) (b : ℕ → ℚ) (h : ℚ) (y0 : V) (k : ℕ → V)
+    (htan : ∀ i, i < s → B (y0 + h • ∑ j ∈ Finset.range s, a i j • k j) (k i) = 0) :
+    B (y0 + h • ∑ i ∈ Finset.range s, b i • k i) (y0 + h • ∑ i ∈ Finset.range s, b i • k i) - B y0 y0 =
+      -(h ^ 2) * ∑ i ∈ Finset.range s, ∑ j ∈ Finset.range s, DVP.QuadInv.mDefect a b i j * B (k i) (k j) :=
+  DVP.QuadInv.quadratic_defect B hsymm s a b h y0 k htan
+
+/-- **The shipped symplectic Runge–Kutta methods (Gauss 4, Gauss 6, implicit midpoint) conserve every
+quadratic invariant to within `1e-14·h²·Σ|B(k_i,k_j)|` per step**, for the float64 coefficients the
+classes hold, every right-hand side, state, step of either sign and stage solution -/
+theorem symplectic_rk_quadratic_invariants (T : RKTab) (hT : T ∈ allRK.filter (·.symplectic))
+    {V : Type} [AddCommGroup V] [Module ℚ V] (B : V →ₗ[ℚ] V →ₗ[ℚ] ℚ) (hsymm : ∀ x y, B x y = B y x) (h : ℚ) (y0 : V) (k : ℕ → V)
+    (htan : ∀ i, i < (T.bs.headD []).length →
+      B (y0 + h • ∑ j ∈ Finset.range (T.bs.headD []).length, DVP.QuadInv.aOf T i j • k j) (k i) = 0) :
+    |B (y0 + h • ∑ i ∈ Finset.range (T.bs.headD []).length, DVP.QuadInv.bOf T i • k i)
+        (y0 + h • ∑ i ∈ Finset.range (T.bs.headD []).length, DVP.QuadInv.bOf T i • k i) - B y0 y0| ≤
+      h ^ 2 * (1 / ((10 ^ 14 : ℕ) : ℚ) * ∑ i ∈ Finset.range (T.bs.headD []).length, ∑ j ∈ Finset.range (T.bs.headD []).length, |B (k i) (k j)|) := by
+  have hall := shipped_symplectic_rk_tables.2
+  rw [List.all_eq_true] at hall
+  have hM := hall T hT
+  simp only [Bool.and_eq_true] at hM
+  exact DVP.QuadInv.quadratic_invariant_drift_bound B hsymm _ _ _ _
+    (fun i j hi hj => DVP.QuadInv.symplecticM_spec T (10 ^ 14) (by positivity) hM.1 i j hi hj) h y0 k htan
+
+/-- the Euclidean form on `ℚ × ℚ` (for the example below) -/
+private def dotB : (ℚ × ℚ) →ₗ[ℚ] (ℚ × ℚ) →ₗ[ℚ] ℚ :=
+  (LinearMap.mul ℚ ℚ).compl₁₂ (LinearMap.fst ℚ ℚ ℚ) (LinearMap.fst ℚ ℚ ℚ) +
+  (LinearMap.mul ℚ ℚ).compl₁₂ (LinearMap.snd ℚ ℚ ℚ) (LinearMap.snd ℚ ℚ ℚ)
+
+/-- non-vacuity of the tangency hypothesis: implicit midpoint (`a = 1/2`, `b = 1`) on the rotation
+`(q, p)' = (p, −q)` from `(1, 0)` with `h = 1`: the stage slope `k = (−2/5, −4/5)` solves the stage
+equation and is tangent to `q² + p²` at the stage state `(4/5, −2/5)`; the step lands on `(3/5, −4/5)`,
+again of norm one -/
+example : dotB ((1, 0) + (1 : ℚ) • ∑ _j ∈ Finset.range 1, ((1/2 : ℚ)) • ((-2/5, -4/5) : ℚ × ℚ)) ((-2/5, -4/5) : ℚ × ℚ) = 0 ∧
+    dotB ((1, 0) + (1 : ℚ) • ∑ _i ∈ Finset.range 1, (1 : ℚ) • ((-2/5, -4/5) : ℚ × ℚ))
+         ((1, 0) + (1 : ℚ) • ∑ _i ∈ Finset.range 1, (1 : ℚ) • ((-2/5, -4/5) : ℚ × ℚ)) = dotB (1, 0) (1, 0) := by
+  constructor <;> (simp [dotB]; norm_num)
 
 /-- non-vacuity: the Störmer–Verlet composition on the harmonic oscillator, forth and back -/
 example : compose (Q := ℚ) (P := ℚ) (fun p => p) (fun q => -q) (-1/10) [(0, 1/2), (1, 0), (0, 1/2)]
